@@ -18,6 +18,9 @@ families (both spaces): EQUAL OFFENDERS - 2..25 structurally equal nodes (Node._
    digits, signs, blanks), on every element kind that can carry it.
    REFERENCE NAMES - one footnote name written in every way two spellings can be "the same name to a reader": blanks around /
    inside the quoted value, quoting style, case, Unicode look-alikes, each as definition and as empty use, before and after;
+   REFERENCE GROUPS - footnotes are numbered per group: every <ref> of the reference families draws its `group` attribute
+   (absent / the document's first group / its second group / empty string) independently of its name, for definitions, empty
+   uses and empty pairs alike, in every order, written before or after the name (see refgroup, refgroup_sweep);
    CAPTIONED TABLES - a caption of 0..11 inline nodes (text, bold, italics, links, big, ref, image, break) x every size / shape /
    class / style trigger of a table pass of the cleaner (see TABLE_TRIGGERS), with and without lead text (infobox marking);
    LINKS IN REFERENCES (space 2) - the same article linked several times with different / equal / no labels inside one
@@ -33,6 +36,7 @@ class Words:
         self.n = 0
         self.prefix = prefix
         self.targets = []        # article targets linked so far in this document (pool for repeated links)
+        self.groups = None       # the (two) reference groups of this document, drawn at the first grouped <ref>
         self.links = []          # complete [[..]] link texts written so far
 
     def __call__(self):
@@ -129,12 +133,16 @@ def inline(rng, W, depth=0, allow_ref=True, named=None):
             content = (lambda: refcontent(rng, W)) if rng.random() < 0.5 else (lambda: inline(rng, W, depth + 2, False))
             if named is not None and rng.random() < 0.35:
                 att, defines = refname(rng, named)
+                # the group is drawn per <ref>, independently of the name (a name is still DEFINED once per document)
                 if not defines:
-                    parts.append("<ref name=%s/>" % att)
+                    parts.append("<ref%s/>" % ref_attrs(rng, "name=" + att, refgroup(rng, W, 0.3)))
                 elif rng.random() < 0.2:          # used before it is defined (the definition follows at once)
-                    parts.append("<ref name=%s/> %s <ref name=%s>%s</ref>" % (att, W.some(rng, 1, 2), att, content()))
+                    parts.append("<ref%s/> %s <ref%s>%s</ref>" % (ref_attrs(rng, "name=" + att, refgroup(rng, W, 0.3)), W.some(rng, 1, 2),
+                                                                  ref_attrs(rng, "name=" + att, refgroup(rng, W, 0.3)), content()))
                 else:
-                    parts.append("<ref name=%s>%s</ref>" % (att, content()))
+                    parts.append("<ref%s>%s</ref>" % (ref_attrs(rng, "name=" + att, refgroup(rng, W, 0.3)), content()))
+            elif named is not None:
+                parts.append("<ref%s>%s</ref>" % (ref_attrs(rng, "", refgroup(rng, W, 0.12)), content()))
             else:
                 parts.append("<ref>%s</ref>" % content())
         else:
@@ -333,6 +341,7 @@ def wellformed(rng, named_refs=False):
         out.extend(section(rng, W, 2, named, budget))
     if rng.random() < 0.7:
         out.extend(["== %s ==" % W.some(rng, 1, 2), W.some(rng, 1, 3), "", "<references/>", ""])
+    out.extend(group_lists(rng, W))
     if rng.random() < 0.12:
         out = repeat_fragment(rng, out)
     return "\n".join(out)
@@ -446,8 +455,9 @@ def frag(rng, W, depth=0):
         if t == "references":
             return rng.choice(["<references/>", "<references>%s</references>" % frag(rng, W, d)])
         if t == "ref":
-            nm = rng.choice(["", "", ' name="n1"', ' name="n2"', ' name=n1', ' name="n1" group="g"',
-                             " name=" + spell_name(rng, rng.choice(name_variants(rng.choice(["n1", "n2", "a b"]))))])
+            nm = rng.choice(["", "", 'name="n1"', 'name="n2"', 'name=n1', 'name="n1"',
+                             "name=" + spell_name(rng, rng.choice(name_variants(rng.choice(["n1", "n2", "a b"]))))])
+            nm = ref_attrs(rng, nm, refgroup(rng, W, 0.3))      # name x group, independently
             return rng.choice(["<ref%s>%s</ref>" % (nm, frag(rng, W, d + 1)), "<ref%s/>" % nm, "<ref%s></ref>" % nm, "<ref%s>x</ref>" % nm])
         if t == "gallery":
             return "\n<gallery%s>\nFile:%s.jpg|%s\nImage:%s.png\n%s\n</gallery>\n" % (attrs(rng), W(), frag(rng, W, d + 2), W(), W())
@@ -761,14 +771,82 @@ def spell_name(rng, v):
     return '"%s"' % v
 
 
+# ------------------------------------------------------------------ family: reference groups
+# Footnotes are numbered per group (<ref group="note">..</ref>, listed by <references group="note"/>): the group is a second
+# key of a reference next to its name and independent of it.  Whatever the cleaner makes of a name that occurs in two groups
+# (HEAD ignores the group), the footnote's nodes must stay in ONE place and its words must not get lost.
+REF_GROUPS = ["note", "lower-alpha", "nb 1", "N", "Émile", "n", "smith"]
+
+
+def refgroup(rng, W, p=0.5):
+    """the group of one <ref>: '' (absent, probability 1-p) or 'group=..' with the document's first group, its second group or
+    the empty string (absent, to a reader), quoted like a name; the two groups are drawn once per document"""
+    if p <= 0 or rng.random() >= p:
+        return ""
+    if not W.groups:
+        W.groups = rng.sample(REF_GROUPS, 2)
+    g = rng.choice([W.groups[0], W.groups[0], W.groups[1], W.groups[1], ""])
+    if not g:
+        return "group=%s" % rng.choice(['""', "''"])
+    k = "group" if rng.random() < 0.95 else rng.choice(["GROUP", "Group"])
+    return "%s=%s" % (k, spell_name(rng, g))
+
+
+def ref_attrs(rng, name_att, group_att):
+    """' name=.. group=..' in either order (or only one of them, or '')"""
+    a = [x for x in (name_att, group_att) if x]
+    if len(a) == 2 and rng.random() < 0.4:
+        a.reverse()
+    return "".join(" " + x for x in a)
+
+
+def group_lists(rng, W):
+    """the footnote lists of the document's groups (each with probability 1/2), under a heading with body text"""
+    out = []
+    for g in W.groups or []:
+        if rng.random() < 0.5:
+            out += ["== %s ==" % W.some(rng, 1, 2), W.some(rng, 1, 3), "", '<references group="%s"/>' % g, ""]
+    return out
+
+
+def refgroup_sweep():
+    """ONE name x the group of each occurrence (absent / g / h / empty), exhaustively, in small documents: definition + empty use
+    (self-closing or empty pair) in both orders; use + definition + use; two definitions (+ a use); group written before or
+    after the name"""
+    docs = []
+    slots = ["", ' group="g"', ' group="h"', ' group=""']
+    tail = '\n\n<references/>\n<references group="g"/>\n'
+    for name in ("n", "smith"):
+        nm = ' name="%s"' % name
+        for a in slots:
+            for b in slots:
+                if name != "n" and a == b:
+                    continue
+                d = "<ref%s%s>w2 w3</ref>" % ((nm, a) if name == "n" else (a, nm))
+                for u in ("<ref%s%s/>" % (nm, b), "<ref%s%s></ref>" % (b, nm)):
+                    docs.append("w1%s w4%s w5%s" % (d, u, tail))
+                    docs.append("w1%s w4%s w5%s" % (u, d, tail))
+                if name == "n":
+                    d2 = "<ref%s%s>w6 w7</ref>" % (nm, b)
+                    docs.append("w1%s w4%s w5%s" % (d, d2, tail))
+                    for c in slots:
+                        u2 = "<ref%s%s/>" % (nm, c)
+                        docs.append("w1%s w4%s w5%s w8%s" % (u2, d, "<ref%s%s/>" % (nm, b), tail))
+                        docs.append("w1%s w4%s w5%s w8%s" % (d, d2, u2, tail))
+                        docs.append("w1%s w4%s w5%s w8%s" % (u2, d, d2, tail))
+    return docs
+
+
 def refname_doc(rng, W, ordinary=False):
     """2..6 occurrences of ONE footnote name, each in a spelling of name_variants (50%: as is), each a definition (content
     words), an empty use or an empty pair; at least one definition and one empty use; in running text, list items or table
-    cells, optionally in different sections"""
+    cells, optionally in different sections.  In 60% of the documents every occurrence also draws a group (refgroup),
+    independently of the spelling of its name"""
     base = rng.choice(REF_BASES)
     if ordinary:          # ... and is unique in the document (two such blocks, or a name of refname(), would define it twice)
         base = "%s.%d" % (base, W.n)
     vs = name_variants(base)
+    pg = 0.0 if rng.random() < 0.4 else rng.choice([0.3, 0.6, 0.6, 1.0])      # 40%: no groups at all
     n = rng.randint(2, 6)
     kinds = ["def", "use"] + [rng.choice(["def", "use", "use", "pair"]) for _ in range(n - 2)]
     rng.shuffle(kinds)
@@ -780,12 +858,13 @@ def refname_doc(rng, W, ordinary=False):
         v = base if rng.random() < 0.5 else rng.choice(vs)
         att = ("%s=%s" if ordinary or rng.random() < 0.85 else rng.choice(["%s = %s", "%s= %s"])) % (
             "name" if ordinary or rng.random() < 0.9 else rng.choice(["NAME", "Name"]), spell_name(rng, v))
+        att = ref_attrs(rng, att, refgroup(rng, W, pg))       # the group of THIS occurrence: absent / first / second / empty
         if k == "def":
-            r = "<ref %s>%s</ref>" % (att, refcontent(rng, W) if rng.random() < 0.5 else W.some(rng, 1, 3))
+            r = "<ref%s>%s</ref>" % (att, refcontent(rng, W) if rng.random() < 0.5 else W.some(rng, 1, 3))
         elif k == "use":
-            r = "<ref %s/>" % att
+            r = "<ref%s/>" % att
         else:
-            r = "<ref %s></ref>" % att
+            r = "<ref%s></ref>" % att
         out.append(r)
     lines = []
     lay = rng.random()
@@ -800,6 +879,8 @@ def refname_doc(rng, W, ordinary=False):
             lines += ["== %s ==" % W.some(rng, 1, 2), "%s %s %s" % (W.some(rng, 1, 3), r, W()), ""]
     if rng.random() < 0.7:
         lines += ["== %s ==" % W.some(rng, 1, 2), W.some(rng, 1, 3), "", "<references/>", ""]
+    if not ordinary:          # (an ordinary block is part of a document that lists its groups itself, see wellformed)
+        lines += group_lists(rng, W)
     return "\n".join(lines)
 
 
